@@ -171,6 +171,9 @@ def _parse_genes(chrom: str, db: FeatureDB) -> List[Dict]:
 
         if Biotype.has_name(gene_biotype):
             gene_biotype = Biotype[gene_biotype]
+        elif gene_biotype == UNKNOWN_BIOTYPE:
+            # this is how a gene without a biotype is exported
+            gene_biotype = None
         elif gene_biotype:
             gene_qualifiers["provided_biotype"] = [gene_biotype]
             gene_biotype = None
